@@ -58,6 +58,8 @@ struct B<'a> {
     /// anonymous child scopes per node in creation order
     anon: BTreeMap<usize, Vec<usize>>,
     anon_used: BTreeMap<usize, usize>,
+    /// values of the pure constants: decide which branch of an `.if` is taken
+    consts: BTreeMap<String, crate::model::eval::Value>,
     _p: std::marker::PhantomData<&'a ()>,
 }
 
@@ -93,6 +95,14 @@ impl<'a> B<'a> {
         self.nodes[scope].defs.insert(name.to_string(), id);
     }
 
+    /// Some(true/false): the condition is a pure constant expression and the then-branch is / is not taken
+    fn taken(&self, cond: &Expr) -> Option<bool> {
+        match crate::model::expand::eval_with(&self.consts, cond) {
+            Some(crate::model::eval::Value::Int(n)) => Some(n != 0),
+            _ => None,
+        }
+    }
+
     // ---- pass 1: definitions, in render order
     fn collect(&mut self, body: &[Stmt], scope: usize) {
         for s in body {
@@ -118,10 +128,23 @@ impl<'a> B<'a> {
                     self.add_def(inner, "index", DefKind::Index, false);
                     self.collect(body, inner);
                 }
-                Stmt::If { then, els, .. } => {
-                    self.collect(then, scope);
+                Stmt::If { cond, then, els } => {
+                    // what a branch that is not taken defines is not there for the rest of the program: its
+                    // definitions live in a scope of their own (in which the branch itself is looked at)
+                    let t = self.taken(cond);
+                    if t == Some(false) {
+                        let inner = self.node(Some(scope), None);
+                        self.collect(then, inner);
+                    } else {
+                        self.collect(then, scope);
+                    }
                     if let Some(e) = els {
-                        self.collect(e, scope);
+                        if t == Some(true) {
+                            let inner = self.node(Some(scope), None);
+                            self.collect(e, inner);
+                        } else {
+                            self.collect(e, scope);
+                        }
                     }
                 }
                 Stmt::MacroDef { name, params, body } => {
@@ -260,9 +283,20 @@ impl<'a> B<'a> {
                 }
                 Stmt::If { cond, then, els } => {
                     self.expr(cond, scope, in_macro);
-                    self.walk(then, scope, in_macro);
+                    let t = self.taken(cond);
+                    if t == Some(false) {
+                        let inner = self.next_anon(scope);
+                        self.walk(then, inner, in_macro);
+                    } else {
+                        self.walk(then, scope, in_macro);
+                    }
                     if let Some(e) = els {
-                        self.walk(e, scope, in_macro);
+                        if t == Some(true) {
+                            let inner = self.next_anon(scope);
+                            self.walk(e, inner, in_macro);
+                        } else {
+                            self.walk(e, scope, in_macro);
+                        }
                     }
                 }
                 Stmt::MacroDef { body, .. } => {
@@ -314,7 +348,7 @@ pub fn analyze(prog: &Program, rendered: &Rendered) -> Bindings {
             }
         }
     }
-    let mut b = B { nodes: vec![], defs: vec![], def_marks, next_def_mark: 0, use_marks, next_use: 0, uses: vec![], anon: BTreeMap::new(), anon_used: BTreeMap::new(), _p: std::marker::PhantomData };
+    let mut b = B { nodes: vec![], defs: vec![], def_marks, next_def_mark: 0, use_marks, next_use: 0, uses: vec![], anon: BTreeMap::new(), anon_used: BTreeMap::new(), consts: crate::model::expand::pure_consts(prog), _p: std::marker::PhantomData };
     let root = b.node(None, None);
     b.collect(prog.main(), root);
     b.walk(prog.main(), root, false);
